@@ -871,9 +871,11 @@ def oracle_server(prop, to_ns, sysns, evs, steps):
         st = steps[i]
         now, frames, ready, io = ev
         if not st.startswith("OK "):
-            wellformed = all(_frame_ok(f) for f in frames)
-            if wellformed and st.startswith("CRASH") and "AssertionError" not in st:
-                bad.append(("crash", "step %d -> %s" % (i, st)))
+            # Props/C10.v c10_server_crash_classified / c10_server_step_invariant: an iteration of the real loop
+            # may raise only for a reason readable off the script (step_cause); everything else is a violation
+            if st.startswith("CRASH") and st.split()[1] not in crash_causes(evs, i):
+                bad.append(("crash", "step %d -> %s (script justifies only %s)"
+                            % (i, st, ",".join(sorted(crash_causes(evs, i))) or "nothing")))
             break
         outs = parse_outs(st)
         # DNS: targets, verbatim payload, attempts
@@ -917,6 +919,38 @@ def oracle_server(prop, to_ns, sysns, evs, steps):
             if unhx(o[3]) not in froms:
                 bad.append(("c11_one_to_one", "step %d: UDP_DATA frame %r matches no received datagram" % (i, o)))
     return bad
+
+
+def crash_causes(evs, i):
+    """exception classes that iteration i of the script itself justifies (Coq: step_cause, with the ghost view
+    `track` of mux.channels computed from the frames alone): AssertionError = DNS_REQ/UDP_OPEN on an identifier
+    that is open, or (once UDP_OPEN has been seen) a recvfrom peer text > 61000 bytes; ValueError = UDP_OPEN /
+    UDP_DATA body that does not parse; OverflowError = UDP_DATA port > 65535"""
+    open_, udp_seen, allowed = [], False, set()
+    for j in range(i + 1):
+        now, frames, ready, io = evs[j]
+        allowed = set()
+        for ch, k, d, tag in frames:
+            if k in ("Q", "O") and ch in open_:
+                allowed.add("AssertionError")
+            if k == "O":
+                udp_seen = True
+                if not d.isdigit():
+                    allowed.add("ValueError")
+                if ch not in open_:
+                    open_.append(ch)
+            elif k == "C":
+                if ch in open_:
+                    open_.remove(ch)
+            elif k == "D":
+                p = d.split(b",", 2)
+                if not (len(p) == 3 and p[1].isdigit()):
+                    allowed.add("ValueError")
+                elif int(p[1]) > 65535:
+                    allowed.add("OverflowError")
+        if udp_seen and any(it[0] == "f" and len(it[2][0]) > 61000 for it in io):
+            allowed.add("AssertionError")
+    return allowed
 
 
 def _frame_ok(f):
@@ -1026,6 +1060,21 @@ def handmade_server(prop):
     out.append((None, [], [(5, [(7, "O", b"2", 0), (7, "C", b"", 0), (7, "O", b"2", 0)], [], [])]))     # Fatal: already open
     out.append((None, [], [(5, [(7, "O", b"2", 0), (7, "O", b"2", 0)], [], [])]))                          # assert
     out.append((None, [], [(5, [(7, "O", b"2", 0)], [], []), (6, [(7, "Q", b"q", 0)], [], [])]))           # assert
+    # the witnesses of Proofs/DgramServer_lemmas.v (c10_server_causes_example, c10_server_alias_example)
+    out.append((("n", 53), [], [(0, [(5, "O", b"2", 0), (5, "Q", b"q", 1)], [], [])]))                     # w_reopen
+    out.append((("n", 53), [], [(0, [(5, "O", b"x", 0)], [], [])]))                                        # w_badopen
+    out.append((("n", 53), [], [(0, [(5, "O", b"2", 0), (5, "D", b"a,65536,", 0)], [], [])]))              # w_bigport
+    out.append((("n", 53), [], [(0, [(5, "O", b"2", 0), (5, "C", b"", 0), (5, "O", b"2", 0)], [], [])]))   # w_fatal_reopen
+    out.append((("n", 53), [], [(0, [(5, "O", b"2", 0), (5, "C", b"", 0)], [], []), (0, [(5, "O", b"2", 0)], [], [])]))
+    # aliasing corner: identifier 7 re-used while its first DnsProxy is alive: the older proxy stays in
+    # `handlers`, unregistered, past its deadline; its late reply is still relayed (on identifier 7)
+    out.append((("n", 53), [], [(0, [(7, "Q", b"a", 0)], [], []), (90, [(7, "Q", b"b", 1)], [], []), (100, [], [], []),
+                                (200, [], [0], [("d", b"old")]), (201, [], [1], [("d", b"new")]), (202, [], [0, 1], [])]))
+    # DNS and UDP mixed on neighbouring identifiers, close + re-use as DNS, oversize peer text
+    out.append((None, ["8.8.8.8"], [(0, [(1, "O", b"2", 0), (2, "Q", b"q", 0), (1, "D", b"1.2.3.4,53,x", 0)], [], []),
+                                    (1, [(1, "C", b"", 0)], [0, 1], [("f", b"r", ("1.2.3.4", 53)), ("d", b"ans")]),
+                                    (2, [(1, "Q", b"again", 0)], [], []), (3, [], [2], [("d", b"ans2")])]))
+    out.append((None, [], [(0, [(1, "O", b"2", 0)], [], []), (1, [], [0], [("f", b"r", ("a" * 70000, 53))])]))   # assert in Mux.send
     return out
 
 
